@@ -4,8 +4,15 @@
  * server's read boundaries equal the chunk boundaries, and prints the messages the server-side
  * connection received.
  *
- * stdin:  <hex stream> <c1,c2,...|->
+ * stdin:  <hex stream> <c1,c2,...|->          server connection driven by the main loop (watches)
+ *         B <hex stream> <c1,...|->          server connection driven by dbus_connection_read_write_dispatch(c, 0)
+ *                                            (the blocking-iteration path client applications use)
+ *         O <ci> <hex stream> <c1,...|->     as B, and additionally: for every allocation index k of the processing
+ *                                            of chunk number ci, and bursts of 1 and 2 failures, the whole stream is
+ *                                            replayed with that allocation failing; results that differ from the
+ *                                            fault-free one are printed
  * stdout: {"auth":0|1,"connected":0|1,"msgs":[...],"local_disconnected":0|1}
+ *         O: {"k":"O","n_alloc":N,"runs":R,"fired":F,"ref":{...},"bad":[{"k":k,"nf":n,"out":{...}},...]}
  */
 #include "hcommon.h"
 #include <test/test-utils.h>
@@ -13,6 +20,8 @@
 #include <sys/un.h>
 #include <errno.h>
 #include <fcntl.h>
+#include <sys/ioctl.h>
+#include <dbus/dbus-internals.h>
 
 static TestMainContext *ctx;
 static DBusConnection *server_conn;
@@ -21,6 +30,7 @@ static int saw_local_disconnect;
 static char *msgbuf;
 static size_t msglen;
 static FILE *msgf;
+static int blocking_mode;
 
 static DBusHandlerResult
 filter (DBusConnection *c, DBusMessage *m, void *data)
@@ -30,8 +40,14 @@ filter (DBusConnection *c, DBusMessage *m, void *data)
       saw_local_disconnect = 1;
       return DBUS_HANDLER_RESULT_HANDLED;
     }
-  if (n_msgs++) fputc (',', msgf);
-  hc_dump_message (msgf, m, 1);
+  {
+    /* the application's own handling of a delivered message is not under test: suspend the injector */
+    int saved = _dbus_get_fail_alloc_counter ();
+    _dbus_set_fail_alloc_counter (_DBUS_INT_MAX);
+    if (n_msgs++) fputc (',', msgf);
+    hc_dump_message (msgf, m, 1);
+    _dbus_set_fail_alloc_counter (saved);
+  }
   return DBUS_HANDLER_RESULT_HANDLED;
 }
 
@@ -41,14 +57,34 @@ new_conn (DBusServer *server, DBusConnection *c, void *data)
   if (server_conn != NULL) return;
   server_conn = dbus_connection_ref (c);
   dbus_connection_set_allow_anonymous (c, FALSE);
-  test_connection_setup (ctx, c);
+  if (!blocking_mode) test_connection_setup (ctx, c);
   if (!dbus_connection_add_filter (c, filter, NULL, NULL)) exit (3);
+}
+
+static void
+run_idle_blocking (int max_calls)
+{
+  int calls = 0, quiet = 0;
+  while (_dbus_loop_iterate (ctx, FALSE) && calls++ < 100) ;
+  calls = 0;
+  while (server_conn != NULL && calls++ < max_calls && quiet < 3)
+    {
+      int before = n_msgs, fd = -1, avail = 0;
+      if (!dbus_connection_read_write_dispatch (server_conn, 0))
+        break;
+      if (dbus_connection_get_dispatch_status (server_conn) == DBUS_DISPATCH_COMPLETE && n_msgs == before &&
+          (!dbus_connection_get_unix_fd (server_conn, &fd) || ioctl (fd, FIONREAD, &avail) < 0 || avail == 0))
+        quiet++;
+      else
+        quiet = 0;
+    }
 }
 
 static void
 run_idle (void)
 {
   int i;
+  if (blocking_mode) { run_idle_blocking (5000); return; }
   /* iterate until nothing happens for a few rounds */
   for (i = 0; i < 4; i++)
     {
@@ -59,6 +95,89 @@ run_idle (void)
     }
 }
 
+/* one complete conversation; returns a malloc'd JSON object.  arm_ci >= 0: arm the injector (k, nf) for the
+ * processing of chunk number arm_ci; *n_alloc gets the number of allocations of that processing when k is huge */
+static char *
+do_stream (const char *path, const unsigned char *buf, long n, const char *chunks, int arm_ci, int k, int nf, int *fired, int *n_alloc)
+{
+  const char *cp = chunks;
+  long off = 0;
+  int fd, ci = 0;
+  struct sockaddr_un sa;
+  int client_closed_by_peer = 0;
+  char *out = NULL; size_t outlen = 0; FILE *of;
+
+  n_msgs = 0; saw_local_disconnect = 0;
+  msgf = open_memstream (&msgbuf, &msglen);
+  if (fired) *fired = 0;
+
+  fd = socket (AF_UNIX, SOCK_STREAM, 0);
+  memset (&sa, 0, sizeof sa);
+  sa.sun_family = AF_UNIX;
+  strncpy (sa.sun_path, path, sizeof sa.sun_path - 1);
+  if (connect (fd, (struct sockaddr *) &sa, sizeof sa) < 0) { perror ("connect"); exit (3); }
+  fcntl (fd, F_SETFL, O_NONBLOCK);
+  run_idle ();
+
+  while (off < n)
+    {
+      long take;
+      ssize_t w;
+      if (cp == NULL || *cp == '-' || *cp == 0) take = n - off;
+      else
+        {
+          take = strtol (cp, (char **) &cp, 10);
+          if (*cp == ',') cp++;
+          if (take > n - off) take = n - off;
+          if (take <= 0) take = 1;
+        }
+      w = send (fd, buf + off, (size_t) take, MSG_NOSIGNAL);
+      if (w < 0)
+        {
+          if (errno == EPIPE || errno == ECONNRESET) { client_closed_by_peer = 1; break; }
+          if (errno == EAGAIN) { run_idle (); continue; }
+          perror ("send"); exit (3);
+        }
+      off += w;
+      if (ci == arm_ci && server_conn != NULL)
+        {
+          int c;
+          _dbus_set_fail_alloc_failures (nf);
+          _dbus_set_fail_alloc_counter (k);
+          run_idle_blocking (12);
+          c = _dbus_get_fail_alloc_counter ();
+          if (fired) *fired = (c > k);
+          if (n_alloc) *n_alloc = k - c;
+          _dbus_set_fail_alloc_counter (_DBUS_INT_MAX);
+          _dbus_set_fail_alloc_failures (1);
+        }
+      run_idle ();
+      ci++;
+    }
+  run_idle ();
+  fclose (msgf);
+  of = open_memstream (&out, &outlen);
+  fprintf (of, "{\"auth\":%d,\"connected\":%d,\"local_disconnected\":%d,\"sent\":%ld,\"epipe\":%d,\"msgs\":[%s]}",
+           server_conn ? (int) dbus_connection_get_is_authenticated (server_conn) : -1,
+           server_conn ? (int) dbus_connection_get_is_connected (server_conn) : -1,
+           saw_local_disconnect, off, client_closed_by_peer, msgbuf ? msgbuf : "");
+  fclose (of);
+  free (msgbuf); msgbuf = NULL;
+  close (fd);
+  run_idle ();
+  if (server_conn)
+    {
+      if (dbus_connection_get_is_connected (server_conn))
+        dbus_connection_close (server_conn);
+      run_idle ();
+      if (!blocking_mode) test_connection_shutdown (ctx, server_conn);
+      dbus_connection_remove_filter (server_conn, filter, NULL);
+      dbus_connection_unref (server_conn);
+      server_conn = NULL;
+    }
+  return out;
+}
+
 int main (void)
 {
   char *line;
@@ -66,7 +185,6 @@ int main (void)
   char addr[160];
   DBusError err;
   DBusServer *server;
-  unsigned long caseno = 0;
 
   setvbuf (stdout, NULL, _IOFBF, 1 << 16);
   ctx = test_main_context_get ();
@@ -81,72 +199,52 @@ int main (void)
   while ((line = hc_readline ()) != NULL)
     {
       unsigned char *buf = NULL;
-      char *sp = strchr (line, ' ');
-      const char *cp;
-      long n, off = 0;
-      int fd;
-      struct sockaddr_un sa;
-      int client_closed_by_peer = 0;
+      char *p = line, *sp;
+      long n;
+      int mode = 0, arm_ci = -1;
+      char *res;
 
-      caseno++;
+      if ((p[0] == 'B' || p[0] == 'O') && p[1] == ' ')
+        {
+          mode = p[0];
+          p += 2;
+          if (mode == 'O') { arm_ci = (int) strtol (p, &p, 10); while (*p == ' ') p++; }
+        }
+      sp = strchr (p, ' ');
       if (sp) *sp++ = 0;
-      cp = sp;
-      n = hc_unhex (line, &buf);
-      if (n < 0) { printf ("{\"k\":\"bad-input\"}\n"); free (line); continue; }
-
-      n_msgs = 0; saw_local_disconnect = 0;
-      msgf = open_memstream (&msgbuf, &msglen);
-
-      fd = socket (AF_UNIX, SOCK_STREAM, 0);
-      memset (&sa, 0, sizeof sa);
-      sa.sun_family = AF_UNIX;
-      strncpy (sa.sun_path, path, sizeof sa.sun_path - 1);
-      if (connect (fd, (struct sockaddr *) &sa, sizeof sa) < 0) { perror ("connect"); return 3; }
-      fcntl (fd, F_SETFL, O_NONBLOCK);
-      run_idle ();
-
-      while (off < n)
+      n = hc_unhex (p, &buf);
+      if (n < 0) { printf ("{\"k\":\"bad-input\"}\n"); fflush (stdout); free (line); continue; }
+      blocking_mode = (mode != 0);
+      if (mode != 'O')
         {
-          long take;
-          ssize_t w;
-          if (cp == NULL || *cp == '-' || *cp == 0) take = n - off;
-          else
-            {
-              take = strtol (cp, (char **) &cp, 10);
-              if (*cp == ',') cp++;
-              if (take > n - off) take = n - off;
-              if (take <= 0) take = 1;
-            }
-          w = send (fd, buf + off, (size_t) take, MSG_NOSIGNAL);
-          if (w < 0)
-            {
-              if (errno == EPIPE || errno == ECONNRESET) { client_closed_by_peer = 1; break; }
-              if (errno == EAGAIN) { run_idle (); continue; }
-              perror ("send"); return 3;
-            }
-          off += w;
-          run_idle ();
+          res = do_stream (path, buf, n, sp, -1, 0, 1, NULL, NULL);
+          printf ("%s\n", res);
+          free (res);
         }
-      run_idle ();
-      fclose (msgf);
-      printf ("{\"auth\":%d,\"connected\":%d,\"local_disconnected\":%d,\"sent\":%ld,\"epipe\":%d,\"msgs\":[%s]}\n",
-              server_conn ? (int) dbus_connection_get_is_authenticated (server_conn) : -1,
-              server_conn ? (int) dbus_connection_get_is_connected (server_conn) : -1,
-              saw_local_disconnect, off, client_closed_by_peer, msgbuf ? msgbuf : "");
+      else
+        {
+          int n_alloc = 0, fired = 0, runs = 0, nfired = 0, nbad = 0, ndropped = 0, k, nf;
+          char *ref = do_stream (path, buf, n, sp, arm_ci, 1 << 28, 1, &fired, &n_alloc);
+          if (n_alloc > 400) n_alloc = 400;
+          printf ("{\"k\":\"O\",\"n_alloc\":%d,\"ref\":%s,\"bad\":[", n_alloc, ref);
+          for (nf = 1; nf <= 2; nf++)
+            for (k = 0; k < n_alloc; k++)
+              {
+                if (getenv ("VERIF_HS_ONLY_K") != NULL && (atoi (getenv ("VERIF_HS_ONLY_K")) != k || nf != 1))
+                  continue;
+                res = do_stream (path, buf, n, sp, arm_ci, k, nf, &fired, NULL);
+                runs++;
+                nfired += fired != 0;
+                if (strncmp (res, "{\"auth\":0,\"connected\":0,", 24) == 0 && strstr (res, "\"msgs\":[]") != NULL)
+                  ndropped++;       /* connection given up during the handshake (credentials / SASL under OOM) */
+                else if (strcmp (res, ref) != 0 && nbad < 4)
+                  printf ("%s{\"k\":%d,\"nf\":%d,\"out\":%s}", nbad++ ? "," : "", k, nf, res);
+                free (res);
+              }
+          printf ("],\"runs\":%d,\"fired\":%d,\"dropped_in_handshake\":%d}\n", runs, nfired, ndropped);
+          free (ref);
+        }
       fflush (stdout);
-      free (msgbuf); msgbuf = NULL;
-      close (fd);
-      run_idle ();
-      if (server_conn)
-        {
-          if (dbus_connection_get_is_connected (server_conn))
-            dbus_connection_close (server_conn);
-          run_idle ();
-          test_connection_shutdown (ctx, server_conn);
-          dbus_connection_remove_filter (server_conn, filter, NULL);
-          dbus_connection_unref (server_conn);
-          server_conn = NULL;
-        }
       free (buf);
       free (line);
     }
